@@ -2,9 +2,10 @@
 //! circuit agree on every program).
 //!
 //! Request line:  `run <instr>... | <name>=<value>... | <hash-table entries>...`
-//! Answer line:   `load:.. | trace:.. | off:.. | cmp:.. | shp:.. | pi:.. | mock:.. | bin:..`
+//! Answer line:   `load:.. | trace:.. | off:.. | cmp:.. | shp:.. | ieq:.. | arch:.. | pi:.. | mock:.. | bin:..`
 //! (see `text.rs` for the encodings and `run.rs` for what each section observes).
 mod gen;
+mod rec;
 mod run;
 mod ser;
 mod text;
@@ -73,6 +74,13 @@ fn main() {
                 // `jsontext <JSON>`: the real ZkirRelation::read on a text
                 let leaked: &'static str = Box::leak(rest.to_string().into_boxed_str());
                 println!("{line}\n  => {:?}", mzkh::catch(|| midnight_zkir::ZkirRelation::read(leaked).map(|r| r.verif_instructions())));
+                continue;
+            }
+            if let Some(rest) = line.strip_prefix("regions ") {
+                // `regions <case>`: histogram of the region names of the witness-free synthesis
+                if let Some(c) = parse_case_body(rest) {
+                    println!("{line}\n  => {:?}", run::region_histogram(&c.prog));
+                }
                 continue;
             }
             let body = line.strip_prefix("run0 ").or(line.strip_prefix("run ")).unwrap_or(line);
